@@ -145,6 +145,8 @@ func TestVerifC17LdProof(t *testing.T) {
 			{"key-other-ec", "forged", "nobody", valid, docNoProof, &otherEC.PublicKey},
 			{"key-other-ed25519", "forged", "nobody", valid, docNoProof, otherEd},
 			{"key-nil", "forged", "nobody", valid, docNoProof, nil},
+			{"key-ed25519-31-bytes", "forged", "nobody", valid, docNoProof, ed25519.PublicKey(otherEd[:31])},
+			{"key-ed25519-empty", "forged", "nobody", valid, docNoProof, ed25519.PublicKey{}},
 			{"key-is-hmac-bytes", "forged", "nobody", valid, docNoProof, pubDER},
 			{"doc-altered", "tampered", "nobody", valid, func() Document {
 				d := map[string]interface{}{}
@@ -180,6 +182,10 @@ func TestVerifC17LdProof(t *testing.T) {
 			}
 			verd["canon"] = err1 == nil && err2 == nil && err3 == nil
 			alg, aerr := nutsCrypto.SignatureAlgorithm(v.key)
+			verd["fits"] = true // the algorithm is derived from the key: it fits unless the key is malformed (Ed25519 key of the wrong length)
+			if ek, ok := v.key.(ed25519.PublicKey); ok && len(ek) != ed25519.PublicKeySize {
+				verd["fits"] = false
+			}
 			verd["keyalg"] = ""
 			if aerr == nil {
 				verd["keyalg"] = string(alg)
@@ -189,7 +195,7 @@ func TestVerifC17LdProof(t *testing.T) {
 			if len(sp) == 2 {
 				sig, derr := enc.DecodeString(sp[1])
 				verd["sigdecodes"] = derr == nil
-				if derr == nil && aerr == nil && verd["canon"] == true {
+				if derr == nil && aerr == nil && verd["canon"] == true && verd["fits"] == true { // crypto/ed25519 panics on a malformed key
 					tbv := append(suite.CalculateDigest(canonProof), suite.CalculateDigest(canonDoc)...)
 					if ver, err := jws.NewVerifier(alg); err == nil {
 						verd["verified"] = ver.Verify([]byte(fmt.Sprintf("%s.%s", sp[0], tbv)), sig, v.key) == nil
